@@ -157,6 +157,15 @@ def setup(ids):
     return 0 if ok_all else 2
 
 
+def _clip(v, limit=12000):
+    """Evidence samples stay small: a value whose JSON text is longer than `limit` is cut
+    (the complete inputs are reproducible from tier + seed)."""
+    t = json.dumps(v, sort_keys=True)
+    if len(t) <= limit:
+        return v
+    return {'truncated_json': t[:limit], 'full_length': len(t)}
+
+
 def check(pid, tier, replay_file):
     t0 = time.time()
     seed = int(os.environ.get('VERIF_SEED', '0'))
@@ -272,7 +281,7 @@ def check(pid, tier, replay_file):
     for k, hs in list(classes.items())[:6]:
         for c in cases:
             if prop.classify(c['input'], c['obs']) == k:
-                samples.append({'class': k, 'input': c['input'], 'impl': c['obs']})
+                samples.append({'class': k, 'input': _clip(c['input']), 'impl': _clip(c['obs'])})
                 break
     dist = {k: len(v) for k, v in sorted(classes.items())}
     evidence = {
@@ -302,7 +311,7 @@ def check(pid, tier, replay_file):
     }
     ev = VERIF / 'evidence' / f'{pid}.json'
     ev.parent.mkdir(exist_ok=True)
-    ev.write_text(json.dumps(evidence, indent=1, sort_keys=True) + '\n')
+    ev.write_text(json.dumps(evidence, indent=None, sort_keys=True) + '\n')
     for ln in out_lines:
         print(ln)
     log(f'[{pid}] {tier}: {len(cases)} cases, {distinct} distinct non-trivial, '
